@@ -24,7 +24,8 @@ RULE = ('request cases: every single injection point (20) x exception kind (plai
         'in both attempts (judge_retry); 36 two-thread '
         'interleavings (a fresh thread serves a request while another is inside its view; a test). thorough '
         'adds every PAIR of faults in one request and every (parent, subrequest) fault pair x use_tweens, and a 16-thread '
-        'soak (a test: per-thread stacks independent, observations equal to the single-threaded ones). scope cases: the 16 '
+        'soak (a test: per-thread stacks independent, observations equal to the single-threaded ones). scope cases '
+        '(also pyramid.paster.bootstrap with a real PasteDeploy ini: plain, closer, with-form): the 18 '
         'analysed entry points x failure site (hand-written sites + an exception injected at every executed statement with '
         'an opaque call), each also RE-ENTRANT: opened while the frame it is about to push -- same request object, same '
         'registry -- is already current (prepare(request=current), invoke_subrequest(current request), nested '
@@ -345,6 +346,87 @@ def has_listeners_facts(src, problems):
     return len(found)
 
 
+# ---- wrappers of the scope API OUTSIDE the anchor files (pyramid.paster.bootstrap hands out the scripting
+# environment of scripting.prepare; the p* scripts and testing.py use it / the manager).  Fail-closed: the exact list
+# of functions outside the anchor files that mention prepare / get_root / bootstrap / RequestContext / a `manager` /
+# env['closer'] -- a new wrapper is a Problem until it is tied -- and, for bootstrap, that the object it returns IS the
+# one prepare() returned (an AppEnvironment: the documented `with bootstrap(..) as env:` needs its __enter__/__exit__).
+SCOPE_API_USERS = sorted([
+    ('pyramid/paster.py', 'bootstrap', ('prepare',)),                     # translated (skeleton) + returns_env fact
+    ('pyramid/testing.py', 'setUp', ('manager',)),                        # test support, not modelled
+    ('pyramid/testing.py', 'tearDown', ('manager',)),
+    ('pyramid/config/assets.py', 'OverrideProvider.get_resource_filename', ('manager',)),   # pkg_resources' manager
+    ('pyramid/config/assets.py', 'OverrideProvider.get_resource_stream', ('manager',)),
+    ('pyramid/config/assets.py', 'OverrideProvider.get_resource_string', ('manager',)),
+    ('pyramid/scripts/ptweens.py', 'PTweensCommand.run', ('bootstrap',)),  # one-shot command line scripts
+    ('pyramid/scripts/pviews.py', 'PViewsCommand.run', ('bootstrap', 'closer')),
+    ('pyramid/scripts/proutes.py', 'PRoutesCommand.run', ('bootstrap',)),
+    ('pyramid/scripts/pshell.py', 'PShellCommand.run', ('bootstrap',)),
+])
+
+
+def scope_api_facts(src, problems):
+    import ast
+    found = []
+    for dirpath, dirs, files in os.walk(os.path.join(src, 'pyramid')):
+        dirs[:] = [d for d in dirs if d not in ('scaffolds', '__pycache__', 'tests')]
+        for fn in sorted(files):
+            if not fn.endswith('.py'):
+                continue
+            rel = os.path.relpath(os.path.join(dirpath, fn), src)
+            if rel in ANCHOR_FILES:
+                continue
+            try:
+                fns = anchor_functions(src, rel)
+            except (OSError, SyntaxError, UnicodeDecodeError) as e:
+                problems.append('scope api users: cannot parse %s: %s' % (rel, e))
+                continue
+            for q, node in fns:
+                ids = set()
+                for x in ast.walk(node):
+                    if isinstance(x, ast.Name) and x.id in ('prepare', 'manager', 'bootstrap', 'get_root', 'RequestContext'):
+                        ids.add(x.id)
+                    if isinstance(x, ast.Attribute) and x.attr in ('bootstrap', 'get_root', 'RequestContext', 'manager'):
+                        ids.add(x.attr)
+                    if isinstance(x, ast.Subscript) and isinstance(x.slice, ast.Constant) and x.slice.value == 'closer':
+                        ids.add('closer')
+                if ids:
+                    found.append((rel, q, tuple(sorted(ids))))
+    found.sort()
+    if found != SCOPE_API_USERS:
+        problems.append('scope API users outside the anchor files changed: new %r, gone %r'
+                        % ([x for x in found if x not in SCOPE_API_USERS], [x for x in SCOPE_API_USERS if x not in found]))
+    # bootstrap returns the very object prepare() returned
+    try:
+        node = F.Module(src, 'pyramid/paster.py').find('bootstrap')
+        body = [s for s in node.body if not (isinstance(s, ast.Expr) and isinstance(s.value, ast.Constant))]
+        var = None
+        ok = True
+        for st in body:
+            if isinstance(st, ast.Assign) and len(st.targets) == 1 and isinstance(st.targets[0], ast.Name) \
+                    and isinstance(st.value, ast.Call) and ast.unparse(st.value.func) == 'prepare':
+                if var is not None:
+                    ok = False
+                var = st.targets[0].id
+            elif var is not None:
+                for x in ast.walk(st):
+                    if isinstance(x, ast.Name) and x.id == var and isinstance(x.ctx, (ast.Store, ast.Del)):
+                        ok = False
+        rets = [x for x in ast.walk(node) if isinstance(x, ast.Return)]
+        if var is None or not ok or len(rets) != 1 or not (isinstance(rets[0].value, ast.Name) and rets[0].value.id == var) \
+                or body[-1] is not rets[0]:
+            problems.append('paster.bootstrap no longer returns the object scripting.prepare() returned (the documented '
+                            '`with bootstrap(..) as env:` relies on AppEnvironment.__enter__/__exit__)')
+        m = F.Module(src, 'pyramid/paster.py')
+        imp = any(isinstance(st, ast.ImportFrom) and st.module == 'pyramid.scripting'
+                  and any(a.name == 'prepare' and a.asname is None for a in st.names) for st in m.tree.body)
+        if not imp:
+            problems.append('binding: pyramid/paster.py no longer takes `prepare` from pyramid.scripting')
+    except Exception as e:
+        problems.append('paster.bootstrap facts unrecognised: %r' % e)
+    return len(found)
+
+
 def facts(src):
     problems = []
     summary = F.check_shapes(src, os.path.join(HERE, 'pins.json'), problems)
@@ -352,6 +434,7 @@ def facts(src):
     summary['no_stack_reference_functions'] = no_stack_reference(src, problems)
     binding_facts(src, problems)
     summary['has_listeners_sites'] = has_listeners_facts(src, problems)
+    summary['scope_api_users_outside_anchor_files'] = scope_api_facts(src, problems)
     try:
         t = TR.translate(src)
         problems += t['problems']
@@ -513,6 +596,8 @@ def enumerate_scopes():
     out = [{'t': 'scope', 'name': n, 'site': s} for n in SC.SCOPES for s in SC.SITES[n]]
     for n in SC.SCOPES:
         for base in SC.SITES[n]:
+            if n.startswith('bootstrap') and base not in ('none', 'current'):
+                continue        # each case loads the PasteDeploy ini: injected sites on the healthy bases only
             if (n, base) not in _INJ_SITES:
                 try:
                     _INJ_SITES[(n, base)] = SC.injection_sites(n, base)
